@@ -434,6 +434,11 @@ func (ex *Exec) ufApp(st *State, name string, ret Sort, args ...*Term) *Term {
 		if eq.IsTrue() {
 			return prev
 		}
+		// cheap filter: arguments that differ under a pseudo-random assignment are not equal for all inputs
+		// (equalities that only hold under the path condition are then left to the solver's own UF reasoning)
+		if !maybeEqual(args, prev.Args) {
+			continue
+		}
 		res, _ := ex.sol.Check(c, append(append([]*Term(nil), st.pc...), c.Not(eq)), false)
 		ex.res.UFCongruence++
 		if res == "unsat" {
